@@ -137,6 +137,12 @@ type Conn struct {
 	encTableSize     uint32
 	encTableSizeSeen uint32
 
+	// encTableSizeMin is the smallest size the server asked for since the
+	// write loop last looked, plus one (zero means "nothing pending"). Several
+	// SETTINGS frames can arrive between two requests, and the smallest size
+	// among them has to be announced before the final one (RFC 7541 4.2).
+	encTableSizeMin uint32
+
 	current Settings
 
 	// serverS belongs to the read loop once the handshake is over.
@@ -1004,7 +1010,15 @@ func (c *Conn) writeRequest(ctx *Ctx) error {
 	// The server may have changed the header table size since the last request.
 	// The encoder is the write loop's, so this is the only safe place to apply
 	// it, and the encoder signals the change to the peer's decoder itself.
-	if size := atomic.LoadUint32(&c.encTableSize); size != c.encTableSizeSeen {
+	if low := atomic.SwapUint32(&c.encTableSizeMin, 0); low != 0 {
+		size := atomic.LoadUint32(&c.encTableSize)
+		if low-1 < size {
+			c.enc.SetMaxTableSize(low - 1)
+		}
+
+		c.encTableSizeSeen = size
+		c.enc.SetMaxTableSize(size)
+	} else if size := atomic.LoadUint32(&c.encTableSize); size != c.encTableSizeSeen {
 		c.encTableSizeSeen = size
 		c.enc.SetMaxTableSize(size)
 	}
@@ -1519,12 +1533,39 @@ func (c *Conn) writePing() error {
 func (c *Conn) handleSettings(st *Settings) {
 	st.CopyTo(&c.serverS)
 
-	atomic.StoreUint32(&c.maxStreams, c.serverS.MaxConcurrentStreams())
-	atomic.StoreUint32(&c.maxFrameSize, c.serverS.MaxFrameSize())
+	// A SETTINGS frame changes the parameters it carries and no others: one it
+	// leaves out keeps the value the server gave it earlier.
+	if st.hasMaxStreams {
+		atomic.StoreUint32(&c.maxStreams, st.MaxConcurrentStreams())
+	}
+
+	if st.hasFrameSize {
+		atomic.StoreUint32(&c.maxFrameSize, st.MaxFrameSize())
+	}
 
 	// The encoder belongs to the write loop, so the new table size is handed
 	// over rather than applied here.
-	atomic.StoreUint32(&c.encTableSize, st.HeaderTableSize())
+	if st.hasTableSize {
+		size := st.HeaderTableSize()
+
+		for {
+			cur := atomic.LoadUint32(&c.encTableSizeMin)
+			if cur != 0 && cur-1 <= size {
+				break
+			}
+
+			next := size + 1
+			if next == 0 { // 2^32-1 cannot be told apart from "nothing pending"; it is not a minimum worth recording
+				break
+			}
+
+			if atomic.CompareAndSwapUint32(&c.encTableSizeMin, cur, next) {
+				break
+			}
+		}
+
+		atomic.StoreUint32(&c.encTableSize, size)
+	}
 
 	// A change to SETTINGS_INITIAL_WINDOW_SIZE applies to every stream that is
 	// already open, as a delta on what it has left.
